@@ -37,4 +37,42 @@ package block
 
 //@ func (*Block).GetRoundRandomSeed
 //@   trusted
+//@   ensures result == b.RoundRandomSeed
 //@   modifies nothing
+
+// ---------------------------------------------------------------- what a block's hash commits to (C29)
+// Merkle trees over the transactions / their receipts (loops over txns, hashing): trusted, read-only.
+//@ func (*Block).GetMerkleTree
+//@   trusted
+//@   ensures result != nil
+//@   modifies nothing
+//@ func (*Block).GetReceiptsMerkleTree
+//@   trusted
+//@   ensures result != nil
+//@   modifies nothing
+//@ func (*MagicBlock).GetHash
+//@   trusted
+//@   modifies nothing
+
+// `binds x`: two blocks equal in everything but x have different hash data.
+// The property lists generator, parent, round, random seed, transactions, their outputs, resulting
+// state and magic block; creation date and state-change count are in the hash data as well.
+//@ func (*Block).getHashData
+//@   prop C29
+//@   requires b != nil
+//@   binds b.MinerID, b.PrevHash, b.CreationDate, b.Round, b.RoundRandomSeed, b.StateChangesCount
+//@   binds b.ClientStateHash
+
+// Validate accepts a block only if its recorded hash is the hash of its contents: of two blocks
+// with the same recorded hash that differ in one committed field at most one is accepted; a block
+// whose transaction map and list disagree in size (a repeated transaction) is rejected.
+//@ func 0chain.net/chaincore/node.GetNode
+//@   trusted
+//@   modifies nothing
+//@ func (*Block).Validate
+//@   prop C29
+//@   inline-all
+//@   requires b != nil && rheld(b.mutexTxns) == 0 && held(b.mutexTxns) == 0
+//@   binds-accept b.PrevHash, b.CreationDate, b.Round, b.RoundRandomSeed, b.StateChangesCount
+//@   ensures[repeated-transaction-rejected] b.TxnsMap != nil && len(b.Txns) != len(b.TxnsMap) ==> result != nil
+//@   ensures[hash-required] b.Hash == "" ==> result != nil
